@@ -971,14 +971,22 @@ package connect
 // protocol_connect.go: streaming client side (C04: the end-of-stream envelope)
 // ---------------------------------------------------------------------------
 
-// header.go: every write of mergeHeaders goes into `into` (the functional
-// contract over the multimap is part of C11, not yet built: map iteration is abstracted).
+// header.go: mergeHeaders appends, per key, the values of `from` to those of
+// `into`, keeping both orders, and touches nothing else (C11: several values
+// per key survive, per-key order is preserved). Keys are copied verbatim.
+//@ macro rawvals(h http.Header, k seq) strlist = if mapdom(h, k) then mapval(h, k) else []
 //@ func mergeHeaders(into, from)
-//@   tags C04, C06, C11
+//@   tags C04, C06, C11, C02
 //@   requires into != nil
 //@   assigns mapof(into), mapvals(into)
+//@   ensures into != from ==> (forall k seq :: {mapdom(into, k)} mapdom(into, k) == (old(mapdom(into, k)) || mapdom(from, k))) // label: merged_keys
+//@   ensures into != from ==> (forall k seq :: {mapval(into, k)} mapdom(from, k) ==> mapval(into, k) == old(rawvals(into, k)) ++ mapval(from, k)) // label: values_appended_in_order
+//@   ensures into != from ==> (forall k seq :: {mapval(into, k)} !mapdom(from, k) ==> mapval(into, k) == old(mapval(into, k))) // label: other_keys_untouched
 //@   loop 1:
-//@     invariant true
+//@     invariant into != from ==> (forall q seq :: {iterated(q)} iterated(q) ==> mapdom(from, q))
+//@     invariant into != from ==> (forall q seq :: {mapdom(into, q)} mapdom(into, q) == (old(mapdom(into, q)) || iterated(q)))
+//@     invariant into != from ==> (forall q seq :: {mapval(into, q)} iterated(q) ==> mapval(into, q) == old(rawvals(into, q)) ++ mapval(from, q))
+//@     invariant into != from ==> (forall q seq :: {mapval(into, q)} !iterated(q) ==> mapval(into, q) == old(mapval(into, q)))
 //@     assigns mapof(into), mapvals(into)
 
 //@ func (*connectStreamingUnmarshaler).Trailer(u) res
